@@ -4,6 +4,16 @@ All ordered pairs (self-pairs included) over each distinct scheme's molecule
 domain, all triples over a 12-molecule sub-alphabet, undecomposable components
 included.  Oracle: desc('A.B') == desc(A) + desc(B) key-wise; a failing
 component makes the pair fail; estimates of the pair are the sums.
+
+Estimates: every getter of the estimate object that returns a property of the
+species (non-dimensional and dimensional, entropies / Gibbs energies absolute
+and relative to the elements), (a) at three temperatures, evaluated right
+after each estimate is made, for all ordered pairs over an 11-molecule
+alphabet, and (b) at 298.15 K under every schedule of the six events "make
+the estimate of A / B / A.B" and "evaluate the estimate of A / B / A.B" on ONE
+library object (90 interleavings; an estimate is always made right after its
+own decomposition), for all unordered pairs (self-pairs included) over 3
+molecules per library.
 """
 import itertools
 
@@ -16,16 +26,35 @@ LEVEL = 'exploration'
 BOUND = {'quick': 'per distinct scheme file: all ordered pairs over M(2) C/O with '
                   'radicals + adsorbates + curated + undecomposable molecules '
                   'and 14 whole-molecule / hydrogen-only species (~115 molecules); all ordered triples over 12 molecules; '
-                  'estimates for all pairs over 10 molecules x 9 libraries; all '
+                  'estimates for all pairs over 10 molecules x 9 libraries x 12 '
+                  'getter presentations (Cp, H, S, G non-dimensional and in '
+                  'units; S and G also with S_elements=True) x 3 '
+                  'temperatures; all 90 interleavings of make / evaluate events '
+                  'for A, B, A.B on one library object x all unordered pairs '
+                  '(self-pairs included) over 3 molecules x 9 libraries; all '
                   'ordered pairs over 6 components of 20-24 heavy atoms',
-         'thorough': 'the same over M(3) (~330 molecules per scheme)'}
+         'thorough': 'the same over M(3) (~330 molecules per scheme); the '
+                     'interleavings over all ordered pairs of 4 molecules per '
+                     'library'}
 RULE = ('every ordered pair / triple is written A.B(.C) and decomposed; '
         'non-trivial = both components decompose to non-empty dictionaries, or '
-        'exactly one component is undecomposable (failure clause)')
+        'exactly one component is undecomposable (failure clause); an '
+        'estimate schedule is one order of the events make(A), make(B), '
+        'make(A.B), evaluate(A), evaluate(B), evaluate(A.B) with every make '
+        'before its evaluate - make = GetDescriptors immediately followed by '
+        'Estimate, evaluate = all 12 getter presentations at 298.15 K')
 ASSUMPTIONS = ['pairs whose component already exceeds 5000 embeddings for a '
                'pattern are excluded (substructure search truncates at 10000); '
                'none occur in the domain',
-               'component order in the SMILES is part of the enumerated space']
+               'component order in the SMILES is part of the enumerated space',
+               'in the schedule family every estimate is made right after the '
+               'decomposition of its own molecule (an estimate made from an '
+               'older decomposition is the recorded finding K1 of C15 and is '
+               'not re-judged here); the schedules of one library share one '
+               'library object, a witness replays its own schedule on a fresh '
+               'one',
+               'standard errors (get_*_SE) are a quadratic form, not additive, '
+               'and are not part of the getter alphabet']
 MANIFEST = dict(
     technique='exhaustive enumeration of ordered molecule pairs and triples, '
               'additive differential oracle',
@@ -34,7 +63,10 @@ MANIFEST = dict(
          'descriptors of the dot-joined species must equal the key-wise sum of '
          'the components\' descriptors, a pair with an undecomposable '
          'component must fail, and every estimated property of the pair must '
-         'equal the sum of the components\' properties.',
+         'equal the sum of the components\' properties - for every getter '
+         '(absolute and relative to the elements, with and without units), '
+         'whether the three estimates are evaluated as they are made or in '
+         'any interleaving with the making of the others.',
     note='Locality is checked on small components; very large components '
          'only through the curated list.',
     ref='5/C04')
@@ -166,6 +198,60 @@ EST = ['C', 'CC', 'CCO', 'CC(C)C', 'C1CCCCC1', 'c1ccccc1', 'C=CC', 'CC=O',
        'C([Pt])C[Pt]', 'OC([Pt])C[Pt]', 'C([Ru])C[Ru]']
 
 
+# every getter of an estimate that returns a property of the species; the
+# first four are evaluated exactly as before, the others add the switch
+# "relative to the elements" and the getters that return numbers with units
+# (standard errors are not additive: left out; the spellings of the switch
+# are C07's alphabet)
+GETTERS = [
+    ('CpoR', lambda e, T: e.get_CpoR(T)),
+    ('HoRT', lambda e, T: e.get_HoRT(T)),
+    ('SoR', lambda e, T: e.get_SoR(T)),
+    ('GoRT', lambda e, T: e.get_GoRT(T)),
+    ('SoR S_elements=True', lambda e, T: e.get_SoR(T, S_elements=True)),
+    ('GoRT S_elements=True', lambda e, T: e.get_GoRT(T, S_elements=True)),
+    ('Cp J/mol/K', lambda e, T: e.get_Cp(T, 'J/mol/K')),
+    ('H kJ/mol', lambda e, T: e.get_H(T, 'kJ/mol')),
+    ('S J/mol/K', lambda e, T: e.get_S(T, 'J/mol/K')),
+    ('G kJ/mol', lambda e, T: e.get_G(T, 'kJ/mol')),
+    ('S J/mol/K S_elements=True',
+     lambda e, T: e.get_S(T, 'J/mol/K', S_elements=True)),
+    ('G kJ/mol S_elements=True',
+     lambda e, T: e.get_G(T, 'kJ/mol', S_elements=True)),
+]
+TEMPS = (298.15, 500.0, 900.0)
+
+
+def evaluate(e, temps=TEMPS):
+    out = []
+    for T in temps:
+        for _label, f in GETTERS:
+            try:
+                out.append(float(f(e, T)))
+            except Exception as ex:     # noqa
+                out.append(type(ex).__name__)
+    return out
+
+
+def labels(temps=TEMPS):
+    return ['%s @%g K' % (lab, T) for T in temps for lab, _f in GETTERS]
+
+
+def summed(x, y):
+    return [u + v if isinstance(u, float) and isinstance(v, float) else
+            (u if isinstance(u, str) else v) for u, v in zip(x, y)]
+
+
+def agree(got, want):
+    """Indices at which the pair's values are not the sums (None: the pair
+    has no values at all)."""
+    if not isinstance(got, list):
+        return None
+    return [i for i, (u, v) in enumerate(zip(got, want)) if not (
+        (u == v) if isinstance(v, str) else
+        (isinstance(u, float) and abs(u - v) <= 1e-9 * max(1, abs(v))))]
+
+
 def run_estimates(R, name, only=None):
     from pgradd.Error import PatternMatchError
     lib = libs.load(name)
@@ -174,18 +260,12 @@ def run_estimates(R, name, only=None):
         try:
             d = lib.GetDescriptors(smi)
             e = lib.Estimate(d, 'thermochem')
-            out = []
-            for T in (298.15, 500.0, 900.0):
-                for f in (e.get_CpoR, e.get_HoRT, e.get_SoR, e.get_GoRT):
-                    try:
-                        out.append(float(f(T)))
-                    except Exception as ex:     # noqa
-                        out.append(type(ex).__name__)
-            return out
+            return evaluate(e)
         except (PatternMatchError, Exception) as ex:    # noqa
             return type(ex).__name__
     single = {s: est(s) for s in EST}
     ok = [s for s in EST if isinstance(single[s], list)]
+    lab = labels()
     for a in ok:
         for b in ok:
             if only is not None and [a, b] != only:
@@ -193,18 +273,104 @@ def run_estimates(R, name, only=None):
             R.evals += 1
             R.nontrivial += 1
             got = est(a + '.' + b)
-            want = [x + y if isinstance(x, float) and isinstance(y, float) else
-                    (x if isinstance(x, str) else y)
-                    for x, y in zip(single[a], single[b])]
-            same = isinstance(got, list) and all(
-                (u == v) if isinstance(v, str) else
-                (isinstance(u, float) and abs(u - v) <= 1e-9 * max(1, abs(v)))
-                for u, v in zip(got, want))
+            want = summed(single[a], single[b])
+            bad = agree(got, want)
+            same = bad == []
             R.outcomes['estimate:additive' if same else 'estimate:not-additive'] += 1
             if not same:
+                shown = (bad or [0])[:4]
                 R.violation('estimate-not-additive', '[%s] %s.%s: %r, sum %r' % (
-                    name, a, b, got if not isinstance(got, list) else got[:4], want[:4]),
+                    name, a, b,
+                    got if not isinstance(got, list) else
+                    [(lab[i], got[i]) for i in shown],
+                    [(lab[i], want[i]) for i in shown]),
                     dict(kind='est', scheme=name, comps=[a, b]))
+
+
+# ---- schedules: the three estimates made and evaluated in every order on one
+# library object.  An estimate is always made right after the decomposition of
+# its own molecule; between its making and its evaluation the library may have
+# decomposed / estimated the other two species.
+SCHED = ['C', 'CC', 'CCO', 'CC=O', 'C([Ru])C[Ru]', 'C1CCCCC1']
+EVENTS = ('bA', 'bB', 'bP', 'vA', 'vB', 'vP')      # b = make, v = evaluate
+SCHEDULES = [p for p in itertools.permutations(EVENTS)
+             if all(p.index('b' + k) < p.index('v' + k) for k in 'ABP')]
+assert len(SCHEDULES) == 90
+SCHED_T = (298.15,)
+
+
+def sched_molecules(lib, tier):
+    """The first 3 (thorough: 4) molecules of SCHED the library estimates."""
+    out = []
+    for s in SCHED:
+        try:
+            e = lib.Estimate(lib.GetDescriptors(s), 'thermochem')
+            if all(isinstance(x, float) for x in evaluate(e, SCHED_T)):
+                out.append(s)
+        except Exception:   # noqa
+            pass
+    return out[:3 if tier == 'quick' else 4]
+
+
+def sched_pairs(mols, tier):
+    if tier == 'quick':
+        return list(itertools.combinations_with_replacement(mols, 2))
+    return list(itertools.product(mols, repeat=2))
+
+
+def run_schedule(R, name, lib, a, b, sched):
+    text = dict(A=a, B=b, P=a + '.' + b)
+    made, val = {}, {}
+    for ev in sched:
+        k = ev[1]
+        if ev[0] == 'b':
+            try:
+                made[k] = lib.Estimate(lib.GetDescriptors(text[k]), 'thermochem')
+            except Exception as ex:     # noqa
+                made[k] = type(ex).__name__
+        else:
+            val[k] = (made[k] if isinstance(made[k], str)
+                      else evaluate(made[k], SCHED_T))
+    R.evals += 1
+    R.nontrivial += 1
+    if isinstance(val['A'], str) or isinstance(val['B'], str):
+        # both were estimated alone when the alphabet was chosen
+        R.outcomes['schedule:component-estimate-fails'] += 1
+        R.violation('schedule-component-fails', '[%s] schedule %s: the estimate '
+                    'of %r / %r, possible alone, gave %r / %r' % (
+                        name, ' '.join(sched), a, b, val['A'], val['B']),
+                    dict(kind='sched', scheme=name, comps=[a, b],
+                         schedule=list(sched)))
+        return
+    want = summed(val['A'], val['B'])
+    bad = agree(val['P'], want)
+    if bad == []:
+        R.outcomes['schedule:additive'] += 1
+        return
+    R.outcomes['schedule:not-additive'] += 1
+    lab = labels(SCHED_T)
+    shown = (bad or [0])[:4]
+    eager = all(sched.index('v' + k) == sched.index('b' + k) + 1 for k in 'ABP')
+    R.violation('schedule-estimate-not-additive:%s' % (
+        'evaluated-as-made' if eager else 'evaluated-later'),
+        '[%s] estimates of A=%r, B=%r, P=A.B made (b) and evaluated (v) in the '
+        'order %s: P gives %r, A + B give %r' % (
+            name, a, b, ' '.join(sched),
+            val['P'] if bad is None else [(lab[i], val['P'][i]) for i in shown],
+            [(lab[i], want[i]) for i in shown]),
+        dict(kind='sched', scheme=name, comps=[a, b], schedule=list(sched)))
+
+
+def run_schedules(R, name, i, n, tier, only=None):
+    lib = libs.load(name)
+    if only is not None:
+        run_schedule(R, name, lib, only[0][0], only[0][1], tuple(only[1]))
+        return
+    pairs = sched_pairs(sched_molecules(lib, tier), tier)
+    R.extra['schedule_pairs'] += len(pairs[i::n])
+    for a, b in pairs[i::n]:
+        for sched in SCHEDULES:
+            run_schedule(R, name, lib, a, b, sched)
 
 
 def shards(tier, seed):
@@ -217,6 +383,9 @@ def shards(tier, seed):
         out.append(('big', name))
     for name in libs.LIBS:
         out.append(('estimates', name))
+        nsch = 2 if tier == 'quick' else 4
+        for i in range(nsch):
+            out.append(('schedules', name, i, nsch))
     return out
 
 
@@ -228,6 +397,8 @@ def run_shard(shard, tier):
         run_triples(R, shard[1])
     elif shard[0] == 'big':
         run_big(R, shard[1])
+    elif shard[0] == 'schedules':
+        run_schedules(R, shard[1], shard[2], shard[3], tier)
     else:
         run_estimates(R, shard[1])
     return R
@@ -237,6 +408,10 @@ def replay(w):
     R = Result()
     if w['kind'] == 'est':
         run_estimates(R, w['scheme'], only=w['comps'])
+    elif w['kind'] == 'sched':
+        # the whole history of the case: a fresh library object, one schedule
+        run_schedules(R, w['scheme'], 0, 1, 'quick',
+                      only=(w['comps'], w['schedule']))
     elif len(w['comps']) == 2:
         S = scheme(w['scheme'])
         single = {s: desc(S, s) for s in w['comps']}
